@@ -120,7 +120,7 @@ Lemma pipe_lo st a rest x :
   LInvW lc st -> l_agenda st = a :: rest -> (forall b, In b (l_agenda st) -> (ae_time a <= ae_time b)%Q) ->
   In x (pipe st) -> (ae_time a <= snd x)%Q.
 Proof.
-  intros [W0 Wp We0 WDs WAs] E Hall Hx. pose proof We0 as We. rewrite Forall_forall in We. destruct x as [it td]. cbn [snd].
+  intros [W0 Wp We0 WDs WAs Wst0] E Hall Hx. pose proof We0 as We. rewrite Forall_forall in We. destruct x as [it td]. cbn [snd].
   unfold pipe in Hx. apply in_app_or in Hx as [Hx|Hx]; [|apply in_app_or in Hx as [Hx|Hx]; [|apply in_app_or in Hx as [Hx|Hx]]].
   - apply In_heldA in Hx as (b & k & p & tm & ct & Hb & Hev & _ & ->).
     pose proof (Hall b Hb) as T1. pose proof (We b Hb) as T2. destruct Hev as [Ev|Ev]; rewrite Ev in T2; cbn [entry_w] in T2; lra.
@@ -157,7 +157,7 @@ Qed.
 Lemma pipe_hi st x :
   LInvW lc st -> In x (pipe st) -> (snd x <= l_now st + (nlen (wd_items (l_wd st)) + 2) * d)%Q.
 Proof.
-  intros [W0 Wp We0 WDs WAs] Hx. pose proof We0 as We. rewrite Forall_forall in We. destruct x as [it td]. cbn [snd].
+  intros [W0 Wp We0 WDs WAs Wst0] Hx. pose proof We0 as We. rewrite Forall_forall in We. destruct x as [it td]. cbn [snd].
   pose proof (nlen_nonneg (wd_items (l_wd st))) as Hn.
   unfold pipe in Hx. apply in_app_or in Hx as [Hx|Hx]; [|apply in_app_or in Hx as [Hx|Hx]; [|apply in_app_or in Hx as [Hx|Hx]]].
   - apply In_heldA in Hx as (b & k & p & tm & ct & Hb & Hev & _ & ->).
@@ -518,7 +518,7 @@ Lemma head_le_now_D st a rest :
   LInvW lc st -> l_agenda st = a :: rest -> (forall b, In b (l_agenda st) -> (ae_time a <= ae_time b)%Q) ->
   acount is_holdD (l_agenda st) = O -> wd_items (l_wd st) <> [] -> (ae_time a <= l_now st)%Q.
 Proof.
-  intros [W0 Wp We WDs WAs] E Hall Hc Hne. rewrite Forall_forall in We.
+  intros [W0 Wp We WDs WAs Wst0] E Hall Hc Hne. rewrite Forall_forall in We.
   destruct (sum_pos_ex _ _ _ (wd_wait _ _ WDs Hc Hne)) as (b & B1 & B2).
   pose proof (Hall b B1) as T1. pose proof (We b B1) as T2.
   destruct (ae_ev b) as [| | | |[]|[]| | | |]; cbn [is_putD is_initD entry_w] in *; destruct B2; try discriminate; lra.
@@ -528,7 +528,7 @@ Lemma Tr_adds st a rest st' : Tr lc st a rest st' -> exists news, AddsT rest (l_
 Proof.
   intros [e isack s' o nw kp k nwa Hev Hstep Ho Hnow Hsnd Hsink Hn2 Hslog Hn1 Hwd Hif HA' Hkp Hkeep Hpkt
          | id r Hev Hfind Hk Hwd Hwa HA' | Hev Hk Hwd Hwa Hag | Hev Hk Hwa Hwd HA' | Hev Hk Hwd Hwa HA'
-         | id tm ct Hev Hp Hq Hk Hwd Hwa HA' | ackno pid tm ct Hev Hq Hk Hwd Hwa HA'
+         | id Hev Hq Hk Hwd Hwa HA' | ackno pid tm ct Hev Hq Hk Hwd Hwa HA'
          | id tm ct Hev Hp Hnow Hsnd Hpkt Hn1 Hslog Hsink Hn2 Hwd Hif]; eauto.
   - exists []. rewrite Hag. constructor.
   - destruct (droppedA lc (l_n2 st)); destruct Hif as [_ H]; eauto.
@@ -590,7 +590,7 @@ Lemma step_Pres st a rest st' :
   Tr lc st a rest st' -> (droppedA lc (l_n2 st) = false \/ l_n2 st' = l_n2 st) ->
   Pres (last_ack (l_snd st)) (pipe lc st) (pipe lc st') (consumed st a).
 Proof.
-  intros Hm HB HW E Hn Hall HT Hnd. pose proof HW as [W0 Wp We WDs WAs]. rewrite E in We, WDs, WAs.
+  intros Hm HB HW E Hn Hall HT Hnd. pose proof HW as [W0 Wp We WDs WAs Wst0]. rewrite E in We, WDs, WAs.
   set (X := last_ack (l_snd st)).
   assert (ToP : forall x x', In x' (pipe lc st') -> better x x' -> consumed st a x \/ exists x', In x' (pipe lc st') /\ Rx X (fst x) (fst x') /\ (snd x' <= snd x)%Q).
   { intros x x' Hin [B1 B2]. right. exists x'. split; [exact Hin|]. split; [rewrite B1; apply Rx_refl|exact B2]. }
@@ -601,7 +601,7 @@ Proof.
   intros x Hx. rewrite pipe_parts, E in Hx.
   destruct HT as [e isack s' o nw kp k nwa Hev Hstep Ho Hnow Hsnd Hsink Hn2 Hslog Hn1 Hwd Hif HA' Hkp Hkeep Hpkt
                  | id r Hev Hfind Hk Hwd Hwa HA' | Hev Hk Hwd Hwa Hag | Hev Hk Hwa Hwd HA' | Hev Hk Hwd Hwa HA'
-                 | id tm ct Hev Hp Hq Hk Hwd Hwa HA' | ackno pid tm ct Hev Hq Hk Hwd Hwa HA'
+                 | id Hev Hq Hk Hwd Hwa HA' | ackno pid tm ct Hev Hq Hk Hwd Hwa HA'
                  | id tm ct Hev Hp Hnow Hsnd Hpkt Hn1 Hslog Hsink Hn2 Hwd Hif].
   - (* sender *)
     destruct (ev_sender_roles _ _ _ _ _ _ Hev) as (R1 & R2 & R3 & R4 & R5 & R6).
@@ -681,8 +681,8 @@ Proof.
       * rewrite Hev. reflexivity.
       * intros n [<-|[]]. reflexivity.
       * rewrite Hwa, app_nil_r. reflexivity.
-    + assert (Ht : (nq (ae_time a + (d - (ae_time a - ct))) <= ae_time a + d)%Q).
-      { rewrite nq_eq. destruct (Wp id tm ct Hp) as [_ Hc']. lra. }
+    + assert (Ht : (nq (ae_time a + (d - (ae_time a - wd_entered (l_wd st)))) <= ae_time a + d)%Q).
+      { rewrite nq_eq. destruct Wst0 as [Hc' _]. lra. }
       destruct (DP_wait (l_now st) (ae_time a) a rest _ id _ (wd_items (l_wd st)) x Hev eq_refl HA' Ht Hc Hx) as (x' & A & B).
       eapply ToP; [apply InD; rewrite k1, Hwd; exact A|exact B].
   - (* ACK wait *)
